@@ -11,7 +11,7 @@ from lib.dispatch import dispatchers
 TECHNIQUE = ("deviant-sibling partition of the LossyFrom/LosslessInto impl bodies (normalised by their own type pair) against a frozen class table; kernel normal "
              "form of the conversion structs; MIR edge-dominance of the element-count comparison over every call of the reshape constructor; fallback-arm shape")
 EXPLANATION = (
-    "Decides structural clauses of C12: (R2) every element conversion impl (LossyFrom<A> for B / LosslessInto<B> for A) is exactly `value as B` (or the "
+    "Decides structural clauses of C12: (R1) every scalar conversion arm (Value::A, Kind(B)) builds its converter from the matched value into an output cell of kind B; (R2) every element conversion impl (LossyFrom<A> for B / LosslessInto<B> for A) is exactly `value as B` (or the "
     "wrapper/`to_string`/identity forms frozen in the class table) between its own two types - so float->int truncates and saturates and widening is exact "
     "by the definition of `as`; (R3) every call of the reshape constructor is dominated by the true edge of a comparison of the two element counts "
     "(product == product), and the matrix conversion kernels map source to destination in the same linear storage order on both sides (no transposing "
@@ -179,4 +179,35 @@ def run(F, rep, tier):
             rep.check("Err(" in txt or "return Err" in txt or "panic" in txt or "todo!" in txt or "?" in txt[-3:], "C12-R4", "%s:fallback-errs" % it["name"],
                       "the fallback arm of %s does not produce an error: `%s`" % (it["name"], txt[:140]), "expanded line %d" % last[3], sample={"fn": it["name"], "fallback": txt[:100]})
     rep.floor("C12-R4", "conversion dispatch tables with a fallback arm", nd, 2)
-    rep.analysed = {"conversion_impls": n, "conversion_structs": len(conv), "reshape_sites": nsites}
+    # R1 scalar pair table: arm (Value::A(arg), Kind(ValueKind::B)) builds a converter whose output cell has the element type of B
+    rep.rule("C12-R1", "scalar conversion arms: the output cell's type is the target kind of the arm's pattern, the argument is the matched value")
+    avk, _disp = X.as_value_kind_table(F)
+    n1 = 0
+    for it in items:
+        if it["k"] != "fn" or not re.search(r"impl_conversion_fxn$", it["name"]):
+            continue
+        for m in find(it["body"], "match"):
+            for arm in m[2]:
+                p = arm[0]
+                if p[0] != "ptuple" or len(p[1]) != 2:
+                    continue
+                src_, tgt = p[1]
+                if not (src_[0] == "pts" and src_[1].startswith("Value::") and tgt[0] == "pts" and tgt[1] == "Value::Kind" and tgt[2] and tgt[2][0][0] == "ppath"):
+                    continue
+                kb = tgt[2][0][1].split("::")[-1]
+                binder = [b[1] for b in find(src_, "pident")]
+                for st in [x for c in find(arm[2], "call") if path_of(c[1]) == "Box::new" for x in c[2] if is_node(x) and x[0] == "struct"]:
+                    fields = {f[0]: f[1] for f in st[2]}
+                    if "out" not in fields or "arg" not in fields:
+                        continue
+                    mt = re.search(r"Ref::new\((\w+)::default\(\)\)", render(fields["out"]))
+                    if not mt:
+                        continue
+                    n1 += 1
+                    got = avk.get(mt.group(1))
+                    okk = got == kb and any(b in render(fields["arg"]) for b in binder)
+                    rep.check(okk, "C12-R1", "%s->%s" % (src_[1].split("::")[-1], kb) if okk else "%s->%s:%s" % (src_[1].split("::")[-1], kb, mt.group(1)),
+                              "conversion arm (%s, Kind(%s)) builds %s with output cell of type %s (kind %s) from `%s`: the value is converted to the wrong kind" % (src_[1], kb, st[1], mt.group(1), got, render(fields["arg"])[:30]),
+                              "expanded line %d" % arm[3], sample={"arm": "(%s, %s)" % (src_[1], kb), "struct": st[1], "out": mt.group(1)})
+    rep.floor("C12-R1", "scalar conversion arms", n1, 150)
+    rep.analysed = {"conversion_impls": n, "conversion_structs": len(conv), "reshape_sites": nsites, "scalar_pair_arms": n1}
